@@ -64,7 +64,9 @@ struct Judge {
 
 int ClassifyOperand(const Soup& s, const V3& p, double guard, Outcome& o) {
   int c = oracle::Classify(s, p, guard);
-  if (c == -2) o.fail("general:operand-winding", verif::fmt("operand winding is not 0/1 at guarded point (%.17g,%.17g,%.17g)", p.x, p.y, p.z));
+  // a generated operand that is not a valid solid at a guarded point is outside
+  // the property's domain: discard the case (counted), never a violation here
+  if (c == -2) { o.counters["discard_invalid_operand"]++; o.excluded = true; o.excluded_rule = "operand-not-0/1-winding (precondition)"; }
   return c;
 }
 
@@ -97,6 +99,22 @@ void Body(Tape& t, Outcome& o) {
 
   Sampler smp;
   smp.uniform(t, lo, hi, 60);
+  // precondition screen: every operand must be a valid solid (winding 0/1)
+  // at the uniform points and just off its own surface, else discard
+  for (auto& s : ss) {
+    Sampler own;
+    own.nearSurface(s, scale, 24);
+    for (auto* set : {&own.pts, &smp.pts})
+      for (auto& p : *set) {
+        double w = oracle::Winding(s, p);
+        long k = std::lround(w);
+        if (oracle::SurfaceDist(s, p) > 1e-7 * scale && (std::abs(w - k) > 1e-6 || (k != 0 && k != 1))) {
+          o.counters["discard_invalid_operand"]++;
+          o.exclude("operand-not-0/1-winding (precondition)");
+          return;
+        }
+      }
+  }
   d << " ; mode=" << mode;
 
   auto status_ok = [&](const Manifold& m, const char* what) {
@@ -139,7 +157,7 @@ void Body(Tape& t, Outcome& o) {
     Judge j{o, guard};
     for (auto& p : smp.pts) {
       int a = ClassifyOperand(ss[0], p, guard, o), b = ClassifyOperand(ss[1], p, guard, o);
-      if (!o.ok) return;
+      if (!o.ok || o.excluded) return;
       if (a < 0 || b < 0) { ++j.skipped; continue; }
       ++j.used;
       if (!j.expect(sAdd, p, a | b, "union")) return;
@@ -175,7 +193,7 @@ void Body(Tape& t, Outcome& o) {
     Judge j{o, guard};
     for (auto& p : smp.pts) {
       int a = ClassifyOperand(ss[0], p, guard, o);
-      if (!o.ok) return;
+      if (!o.ok || o.excluded) return;
       double sd = (n.x * p.x + n.y * p.y + n.z * p.z) / len - dOff;
       if (a < 0 || std::abs(sd) <= guard) { ++j.skipped; continue; }
       ++j.used;
@@ -203,7 +221,7 @@ void Body(Tape& t, Outcome& o) {
       bool skip = false;
       for (size_t i = 0; i < ss.size(); ++i) {
         int c = ClassifyOperand(ss[i], p, guard, o);
-        if (!o.ok) return;
+        if (!o.ok || o.excluded) return;
         if (c < 0) { skip = true; break; }
         if (i == 0) acc = c;
         else acc = op == OpType::Add ? (acc | c) : op == OpType::Intersect ? (acc & c) : (acc & !c);
